@@ -276,7 +276,7 @@ pub fn build(quick: bool) -> Check {
     Check {
         id: "C13",
         level: "model_checking",
-        rule: format!("every ErrorKind variant of the tree under test ({} variants, list regenerated by build.rs) x 12 reporting sites (init via COM_INIT_DB and USE, prepare, query error fresh / after complete_one / after finish_one, finish_error after 0 rows / rows / a complete unended row in text mode, binary finish_error after 0 rows / rows, binary error after finish_one) x message classes (empty, 1 byte, 512 bytes, 70000 bytes in thorough, invalid UTF-8, leading '#', embedded NUL, leading 0xFF), each followed by a sentinel PING; every 97th (thorough: 11th) kind x all sites x 3 messages again for clients that answered the greeting with the pre-4.1 layout, with CLIENT_PROTOCOL_41 alone, and with libmysqlclient's full set (db, plugin, attributes). Oracle: the decoded ERR carries (kind as u16, kind.sqlstate(), message bytes) and mysql_common reads the same; per variant: code <-> kind both ways, (name, code, SQLSTATE) equal the pinned golden table, codes equal the mysql client crate's independent table, 46 documented (code, SQLSTATE) anchors.", KINDS.len()),
+        rule: format!("every ErrorKind variant of the tree under test ({} variants, list regenerated by build.rs) x 12 reporting sites (init via COM_INIT_DB and USE, prepare, query error fresh / after complete_one / after finish_one, finish_error after 0 rows / rows / a complete unended row in text mode, binary finish_error after 0 rows / rows, binary error after finish_one) x message classes (empty, 1 byte, 512 bytes, 70000 bytes in thorough, invalid UTF-8, leading '#', embedded NUL, leading 0xFF), each followed by a sentinel PING; every 97th (thorough: every) kind x all sites x 3 messages again for clients that answered the greeting with the pre-4.1 layout, with CLIENT_PROTOCOL_41 alone, and with libmysqlclient's full set (db, plugin, attributes). Oracle: the decoded ERR carries (kind as u16, kind.sqlstate(), message bytes) and mysql_common reads the same; per variant: code <-> kind both ways, (name, code, SQLSTATE) equal the pinned golden table, codes equal the mysql client crate's independent table, 46 documented (code, SQLSTATE) anchors.", KINDS.len()),
         assumptions: vec![
             "trusted base for SQLSTATEs beyond the 46 anchors: the table pinned in /verif/data equals MariaDB's published one (as the generator comment in errorcodes.rs states); variants added later are checked for self-consistency only".into(),
         ],
@@ -285,7 +285,7 @@ pub fn build(quick: bool) -> Check {
         caps_hit: vec![],
         families: vec![
             Box::new(Sites { msgs }),
-            Box::new(Handshakes { kinds: (0..KINDS.len()).step_by(if quick { 97 } else { 11 }).collect(), msgs: vec![vec![], b"denied #1".to_vec(), vec![b'm'; 600]] }),
+            Box::new(Handshakes { kinds: (0..KINDS.len()).step_by(if quick { 97 } else { 1 }).collect(), msgs: vec![vec![], b"denied #1".to_vec(), vec![b'm'; 600]] }),
             Box::new(Tables),
         ],
         required: vec!["errors_to_other_handshakes", "errors_after_resultset_header", "golden_rows_checked", "client_crate_rows_checked", "anchors_checked"],
